@@ -18,7 +18,8 @@ TEXT = ("Thin claim: exactness of the Myers edit script for all pairs of arrays 
         "empty range at op[1] for insertions; E3 - the reconstruction cache is transparent: the value stored under the "
         "base revision and the value returned are the same local, a hit returns the cached order unmodified, the cache "
         "guard is held across the whole reconstruction, keys are revisions (content-derived, C19), and only full orders "
-        "are cached, and a cached order is never handed out mutably or removed.")
+        "are cached, and a cached order is never handed out mutably or removed."
+        " E2e: the diff routine receives the two input sequences themselves, not derived keys.")
 TECHNIQUE = 'static analysis over rustc MIR: diff-base = recorded parent (provenance), op-code/operand table agreement of edit-script writer and applier, cache transparency (who-may-write, held guard, lookup keys), history-walk must-pass rules'
 TRUSTED = ["rustc nightly MIR", "yavomrs::myers_unfilled produces a correct edit script", "Vec::drain / splice semantics", "C19"]
 
